@@ -179,6 +179,17 @@ func c15Word(c *fw.Ctx, w uint32) {
 		c.Violation("header-word", "field", "UnmarshalHeader", fmt.Sprintf("word %#08x unpacked to class=%#x field=%d mask=%v len=%d", w, f.Class, f.Field, f.HasMask, f.Length))
 		return
 	}
+	// unpacking into a value that already holds another header (here: the complement word, so every field and the
+	// mask flag differ) must give the same result as unpacking into a fresh one
+	var used of.MatchField
+	var nb [4]byte
+	binary.BigEndian.PutUint32(nb[:], ^w)
+	if used.UnmarshalHeader(nb[:]) == nil {
+		if err := used.UnmarshalHeader(b[:]); err != nil || used.MarshalHeader() != w || used.HasMask != f.HasMask || used.Class != f.Class || used.Field != f.Field || used.Length != f.Length {
+			c.Violation("header-word", "roundtrip", "Unmarshal-into-used-value", fmt.Sprintf("word %#08x unpacked into a value that previously held %#08x gives class=%#x field=%d mask=%v len=%d, packing back to %#08x", w, ^w, used.Class, used.Field, used.HasMask, used.Length, used.MarshalHeader()))
+			return
+		}
+	}
 	// the other direction: a header value packs and unpacks to itself
 	h := of.MatchField{Class: f.Class, Field: f.Field, HasMask: f.HasMask, Length: f.Length}
 	binary.BigEndian.PutUint32(b[:], h.MarshalHeader())
@@ -186,6 +197,21 @@ func c15Word(c *fw.Ctx, w uint32) {
 	if err := g.UnmarshalHeader(b[:]); err != nil || g.Class != h.Class || g.Field != h.Field || g.HasMask != h.HasMask || g.Length != h.Length {
 		c.Violation("header-word", "roundtrip", "Unmarshal(Marshal(h))", fmt.Sprintf("header %+v came back as %+v (err %v)", h, g, err))
 	}
+}
+
+// randomCase returns name with a random letter-case pattern.
+func randomCase(name string, r *prng.R) string {
+	b := []byte(strings.ToLower(name))
+	bits := r.U64()
+	for i := range b {
+		if b[i] >= 'a' && b[i] <= 'z' && bits>>(uint(i)%64)&1 == 1 {
+			b[i] -= 32
+		}
+		if i%64 == 63 {
+			bits = r.U64()
+		}
+	}
+	return string(b)
 }
 
 func c15Variants(name string) []string {
@@ -368,7 +394,11 @@ func c15Indep(c *fw.Ctx, cs *c15Case) {
 					name = names[r.Intn(len(names))]
 				}
 				mask := r.Bool()
-				f, err := of.FindFieldHeaderByName(name, mask)
+				spelled := name
+				if it%3 != 0 { // a spelling (random letter case) most likely never looked up before in this process
+					spelled = randomCase(name, r)
+				}
+				f, err := of.FindFieldHeaderByName(spelled, mask)
 				if err != nil || f == nil {
 					mu.Lock()
 					bads = append(bads, bad{name, fmt.Sprintf("lookup failed during the workload: %v", err)})
@@ -409,6 +439,11 @@ func c15Indep(c *fw.Ctx, cs *c15Case) {
 		}
 	}
 	// afterwards: registry equals the snapshot, fresh lookups are pristine
+	if fromHook {
+		if after := hookRegistryNames(); len(after) != len(names) {
+			c.Violation("registry", "alias", "registry-grew", fmt.Sprintf("the registry had %d entries before the lookups and has %d after them: lookups write the shared table", len(names), len(after)))
+		}
+	}
 	for _, n := range names {
 		p := pr[n]
 		if fromHook {
